@@ -13,6 +13,7 @@ GRAPHS = {
     "g8b": (["src", "ps", "p"], 2),
     "g8c": (["src", "ps", "pp", "p", "q"], 4),
     "g11": (["src", "p", "last"], 2),
+    "g8f": (["src", "src2", "ps", "p", "x"], 4),
 }
 
 
@@ -41,6 +42,8 @@ def setup(J):
                 for sub in itertools.combinations(procs, n):
                     for how in hows:
                         items = 1 if q else 2
+                        if g == "g8f":
+                            items = 2  # more values than the parameter port's buffer (1) holds
                         jobs.append(J.with_delay_fallback(J.wf("C16", g, items, 1, 2, "func", oracles=["nohang", "clean", "c04", "c05", "c16-runto"], tier=tier, events_dep=False,
                                                                runto=list(sub), runtohow=how, budget=(20 if q else 120), id=f"C16-runto-{g}-{'+'.join(sub)}-{how}")))
         # shell-command bodies: unwired ports, one RunTo target per graph
